@@ -88,6 +88,8 @@ def contexts(F, n):
     return {
         "guard": ("guard", "%s == 1" % F),
         "invariant": ("inv", "%s == 1" % F),
+        "invariant_urgent": ("inv", "%s == 1" % F),            # the same on an urgent / a committed location (CTX_FLAG)
+        "invariant_committed": ("inv", "%s == 1" % F),
         "sync": ("sync", "cs[%s]!" % F),
         "prob": ("prob", "%s" % F),
         "select": ("select", "k%d : int[0, %s]" % (n, F)),
@@ -109,6 +111,9 @@ def contexts(F, n):
 TP = {"name": "TP", "params": "int pp", "locations": [{"id": "id0"}], "init": "id0"}
 TPR = {"name": "TPR", "params": "int &pr", "locations": [{"id": "id0"}], "init": "id0"}
 SIDE = "side-effect"
+
+
+CTX_FLAG = {"invariant_urgent": "urgent", "invariant_committed": "committed"}
 
 
 def mk_placer():
@@ -136,7 +141,7 @@ def run(tier):
         lines, top = render_family(fam_rec["fam"], name, twin)
         role, text = contexts(top, len(cases))[ctx]
         cid = "c%d" % len(cases)
-        cases.append({"id": cid, "role": role, "text": text, "pre": lines})
+        cases.append({"id": cid, "role": role, "text": text, "pre": lines, "flag": CTX_FLAG.get(ctx)})
         info[cid] = {"fam": fam_rec, "ctx": ctx, "twin": twin, "decl": lines, "expr": text, "n": n}
     all_ctx = [x for x in contexts("F", 0) if x != "instarg_ref"]       # a function call is not an lvalue: the reference context takes direct writes only
     # every family in the guard context; a sample of families in every context; write-free twins
@@ -154,7 +159,7 @@ def run(tier):
     for d in sorted(direct_cases, key=lambda d: (d["ctx"], d["wf"], d["shape"])):
         cid = "c%d" % len(cases)
         role, text = contexts("(" + WF[d["wf"]] % TGT[("global", d["shape"])] + ")", len(cases))[d["ctx"]]
-        cases.append({"id": cid, "role": role, "text": text})
+        cases.append({"id": cid, "role": role, "text": text, "flag": CTX_FLAG.get(d["ctx"])})
         info[cid] = {"fam": {"fam": [], "maywrite": True, "rejects": True}, "ctx": d["ctx"], "twin": False, "decl": [], "expr": text, "n": -1}
     for sh in ("scalar", "elem", "field"):          # the write-free twins of the reference context: the bare lvalue
         cid = "c%d" % len(cases)
